@@ -90,7 +90,7 @@ Proof. exact find_height. Qed.
 Print Assumptions C01_height_bounds_dimension.
 
 (* ---- history refinement: for ALL histories made of insert_simplex, insert_simplex_and_subfaces,
-        insert_batch_vertices, remove_maximal_simplex, prune_above_filtration, prune_above_dimension, clear and
+        insert_batch_vertices, insert_graph (on an empty tree), remove_maximal_simplex, prune_above_filtration, prune_above_dimension, clear and
         calls of dimension() and num_simplices_by_dimension() (both may rewrite the cached dimension), that meet the documented preconditions and keep the complex closed and monotone
         ([ok_history]): the tree is well formed, holds exactly the finite map of the specification run, and the
         cached dimension_ is an upper bound of the dimension of every simplex of the complex.  Holds for the
@@ -250,8 +250,18 @@ Theorem C01_counts_writeback : forall st res,
 Proof. exact count_by_dim_dirty. Qed.
 Print Assumptions C01_counts_writeback.
 
+(* ---- insert_graph on an empty tree: vertices 0..n-1 with their values, then the edges (first occurrence wins) ---- *)
+Theorem C01_insert_graph_effect : forall vw es,
+  forallb (edge_ok (Z.of_nat (length vw))) es = true ->
+  agree (ins_graph vw es) (spec_graph vw es) /\
+  (forall x, 0 <= x < Z.of_nat (length vw) -> find_val [x] (ins_graph vw es) <> None) /\
+  (forall u0 v0 w es', es = (u0, v0, w) :: es' -> find_val [Z.min u0 v0; Z.max u0 v0] (ins_graph vw es) <> None).
+Proof. exact graph_agree. Qed.
+Print Assumptions C01_insert_graph_effect.
+
 (* ---- stated, not proved in Coq (compared per input by the correspondence run instead) ---- *)
-(* histories that also contain insert_graph and expansion *)
+(* histories that also contain expansion (its algorithm, siblings_expansion, is the subject of C04; here it is
+   modelled at specification level and compared with the C++ per input) *)
 Definition C01_history_refines_full : Prop :=
   forall ops, ok_history ops = true ->
     (forall t, t <> [] -> find_val t (tree (run true ops)) = lookup (spec_run ops) t) /\
